@@ -112,6 +112,8 @@ def instances(draw, tier="quick"):
         "demands": demands,
         "num": draw(st.sampled_from(["int", "int", "float"])),
         "seq": draw(st.sampled_from(["list", "tuple"])),
+        # solve_cg only: column generation cut short by a tiny iteration limit (OPTIMAL must then not be claimed wrongly)
+        "cg_max_iter": draw(st.sampled_from([None] * 7 + [0, 1, 2])),
     }
 
 
@@ -185,6 +187,7 @@ def pools(draw, tier="quick"):
         "demands": demands,
         "none_style": draw(st.booleans()),  # pricing returns (None, 0.0) instead of a non-improving column
         "col_type": draw(st.sampled_from(["tuple", "list"])),  # type of the initial columns handed in
+        "cg_max_iter": draw(st.sampled_from([None] * 7 + [0, 1, 2])),
     }
 
 
@@ -313,6 +316,9 @@ def _cs_case(desc, ctx):
 
 def run_cg(desc, ctx):
     n, sizes, demands, optimum, dem_arg, args, extra, W = _cs_case(desc, ctx)
+    if desc.get("cg_max_iter") is not None:
+        args = dict(args, max_iter=desc["cg_max_iter"])
+        ctx.label("cg-max_iter-tiny")
     res = _call_cg(ctx, dem_arg, **args)
     judge(res, "cg", n, demands, optimum, ctx, fits=lambda p: CS.fits(p, W, sizes), extra=extra)
 
@@ -377,6 +383,9 @@ def _run_custom(desc, ctx, solver):
     try:
         if solver == "cg":
             a, kw = mk_args()
+            if desc.get("cg_max_iter") is not None:
+                kw["max_iter"] = desc["cg_max_iter"]
+                ctx.label("cg-max_iter-tiny")
             res = _call_cg(ctx, *a, **kw)
         else:
             res = _call_bp(ctx, mk_args)
